@@ -385,7 +385,7 @@ class Run:
                 self.discharged += len([t for t in thms if t in axioms])
                 self.theorem_axioms.update(axioms)
                 for t, ax in axioms.items():
-                    extra = [a for a in ax if a not in STD_AXIOMS and not a.startswith("PrimFloat") and not a.startswith("Uint63")]
+                    extra = [a for a in ax if a not in STD_AXIOMS and not a.startswith(("PrimFloat", "Uint63", "PrimInt63", "FloatOps", "CarryType"))]
                     if extra:
                         self.findings.append(Finding("proof:axiom:" + t, "theorem %s depends on non-standard axioms %s" % (t, extra),
                                                      {"theorem": t, "axioms": extra}, no_input=True))
